@@ -133,8 +133,18 @@ class Interp:
         key = key + "|" + str(len(st.pc)) + "|" + str(len(st.axioms))
         if key in self.feas_cache:
             return self.feas_cache[key]
+        s0 = z3.Solver()
+        s0.set("timeout", 1000)
+        for h in st.pc:
+            if not has_quant(h):
+                s0.add(h)
+        s0.add(c)
+        self.stats["feas"] += 1
+        if s0.check() == z3.unsat:
+            self.feas_cache[key] = False
+            return False
         s = z3.Solver()
-        s.set("timeout", 1500)
+        s.set("timeout", 3000)
         for h in st.pc + st.axioms:
             if not has_quant(h):     # dropping hypotheses only makes more paths feasible (sound)
                 s.add(h)
@@ -262,6 +272,22 @@ class Interp:
             else:
                 alts.append((c0, v))
         return Union(alts)
+
+    def spec_map_union(self, st, u, f):
+        """spec mode: apply f to every alternative of a union and merge; alternatives on which f is undefined
+        (a partial operation such as len(None)) contribute an unspecified value, i.e. are skipped."""
+        vals = []
+        for c, x in u.alts:
+            try:
+                vals.append((c, f(x)))
+            except (PyRaise, OutsideSubset):
+                continue
+        if not vals:
+            raise OutsideSubset("spec expression undefined on every alternative of a union")
+        out = vals[-1][1]
+        for c, x in reversed(vals[:-1]):
+            out = self.merge(st, c, x, out)
+        return out
 
     def force(self, st, v, label="force"):
         while isinstance(v, Union):
@@ -446,6 +472,8 @@ class Interp:
         t = self.resolve_T(t)
         if isinstance(v, Z):
             if v.t.kind == t.kind and (t.kind != "seq" or v.e.sort() == t.z3sort()):
+                if t.kind == "ref" and t.cls and not v.t.cls:
+                    return Z(t, v.e)
                 return v
             if t.kind == "dyn":
                 return Z(t, self.to_dyn(st, v))
@@ -477,6 +505,9 @@ class Interp:
                 return Z(t, z3.Concat(*us) if len(us) > 1 else us[0])
             if o.kind == "obj" and t.kind == "ref":
                 return self.freeze(st, v)
+        if isinstance(v, PyTuple) and t.kind == "tuple" and len(v.items) == len(t.args):
+            srt, mk, accs = smt.tuple_sort(tuple(a.z3sort() for a in t.args))
+            return Z(t, mk(*[self.to_z(st, x, a).e for x, a in zip(v.items, t.args)]))
         if isinstance(v, RangeVal) and t.kind == "seq":
             raise OutsideSubset("range as seq")
         raise OutsideSubset(f"cannot convert {v!r} to {t}")
